@@ -45,6 +45,13 @@ formatter that the property depends on.  Argument order is given in the comments
   idxLazy : Nat → Nat                      -- ll             `len(str(lazy_length + 1)) + 2`
   idxEager : Nat → Nat                     -- n              `len(str(len(table))) + 2`
   colWidth : Nat → Nat → Nat → Nat → Nat   -- cw ctw dw max  `min(max(cw, ctw, dw), max_column_width)`
+  measure : Nat → Nat → Nat                -- t.rowcount lim how many rows of `t` `calculate_data_width(t.collect(i))` measures
+  lazyHeadOnlyTake : Nat → Nat             -- limit          `islice(table._rows, limit)` (head-only)
+  lazyHeadTake : Nat → Nat                 -- limit          `head = list(islice(table._rows, limit))`
+  dequeMax : Nat → Nat                     -- limit          `deque(maxlen=limit)`
+  eagerHeadSize : Nat → Nat                -- limit          `table.head(size=limit)`
+  eagerTailSize : Nat → Nat                -- limit          `table.tail(size=limit)`
+  eagerSliceLen : Nat → Nat                -- limit          `table.slice(length=limit)`
   eagerSplit : Nat → Nat → Bool            -- n limit        `table.rowcount > 2*limit`
   eagerAtEll : Nat → Nat → Bool            -- i limit        `i == limit`
   eagerInTail : Nat → Nat → Bool           -- i limit        `i >= limit`
@@ -84,6 +91,13 @@ def srcArith : Arith where
   idxLazy ll := (idxWidthLazy digitsI (ll : Int)).toNat
   idxEager n := (idxWidthEager digitsI (n : Int)).toNat
   colWidth cw ctw dw m := (Gen.DisplayExpr.colWidth (cw : Int) (ctw : Int) (dw : Int) (m : Int)).toNat
+  measure tlen limit := (measureRows (tlen : Int) (limit : Int)).toNat
+  lazyHeadOnlyTake limit := (Gen.DisplayExpr.lazyHeadOnlyTake (limit : Int)).toNat
+  lazyHeadTake limit := (Gen.DisplayExpr.lazyHeadTake (limit : Int)).toNat
+  dequeMax limit := (Gen.DisplayExpr.dequeMax (limit : Int)).toNat
+  eagerHeadSize limit := (Gen.DisplayExpr.eagerHeadSize (limit : Int)).toNat
+  eagerTailSize limit := (Gen.DisplayExpr.eagerTailSize (limit : Int)).toNat
+  eagerSliceLen limit := (Gen.DisplayExpr.eagerSliceLen (limit : Int)).toNat
   eagerSplit n limit := decide (eagerSplitTest (n : Int) (limit : Int))
   eagerAtEll i limit := decide (eagerEllipsisTest (i : Int) (limit : Int))
   eagerInTail i limit := decide (eagerTailTest (i : Int) (limit : Int))
@@ -117,6 +131,13 @@ def specArith : Arith where
   idxLazy ll := (natStr (ll + 1)).length + 2
   idxEager n := (natStr n).length + 2
   colWidth cw ctw dw m := min (max (max cw ctw) dw) m
+  measure tlen _ := tlen
+  lazyHeadOnlyTake limit := limit
+  lazyHeadTake limit := limit
+  dequeMax limit := limit
+  eagerHeadSize limit := limit
+  eagerTailSize limit := limit
+  eagerSliceLen limit := limit
   eagerSplit n limit := decide (2 * limit < n)
   eagerAtEll i limit := decide (i = limit)
   eagerInTail i limit := decide (limit ≤ i)
@@ -178,9 +199,9 @@ def dfTail (rows : List α) (size : Nat) : List α := dfSlice rows (0 - (size : 
 
 /-- The cut frame `t` of an eager table (`display.py:183-203`, `is_lazy = False`). -/
 def eagerCut (A : Arith) (rows : List α) (limit : Nat) (tt : Bool) : List α :=
-  if 0 < limit ∧ tt = false then dfSlice rows 0 (some limit)                 -- :187
+  if 0 < limit ∧ tt = false then dfSlice rows 0 (some (A.eagerSliceLen limit))                 -- :187
   else if 0 < limit ∧ tt = true then
-    if A.headTail rows.length limit then dfHead rows limit ++ dfTail rows limit   -- :190-191
+    if A.headTail rows.length limit then dfHead rows (A.eagerHeadSize limit) ++ dfTail rows (A.eagerTailSize limit)   -- :190-191
     else rows                                                                     -- :200-201
   else rows                                                                       -- :202-203
 
@@ -212,12 +233,12 @@ index of the last remaining row (its initial value when none remain); then
 `lazy_length += len(head) + 1`. -/
 def lazySelect (A : Arith) (rows : List α) (limit : Nat) (tt : Bool) : List α × Nat :=
   if 0 < limit ∧ tt = false then
-    let t := rows.take limit
+    let t := rows.take (A.lazyHeadOnlyTake limit)
     (t, A.lazyHeadOnly t.length)
   else if 0 < limit ∧ tt = true then
-    let head := rows.take limit
-    let rest := rows.drop limit
-    let tail := rest.foldl (dequePush limit) []
+    let head := rows.take (A.lazyHeadTake limit)
+    let rest := rows.drop (A.lazyHeadTake limit)
+    let tail := rest.foldl (dequePush (A.dequeMax limit)) []
     let ll := if rest.isEmpty then A.lazyLenInit else rest.length - 1
     (head ++ tail, A.lazyLenUpd ll head.length)
   else (rows, A.lazyLenInit)
@@ -576,8 +597,14 @@ def bodyLines (A : Arith) (cw : Char → Nat) (p : Params) (iw : Nat) (ws : List
       | .error e => .error e
       | .ok ls => .ok ((true, dataLine A iw label cells) :: ls)
 
+/-- The rows of the printed frame `t` whose values are measured for the column widths
+(`t.collect(i)`: all of them; `collect(i, k)` would be the first `k`). -/
+def measuredRows (A : Arith) (p : Params) (f : Frame) : List (List Cell) :=
+  let t := cutRows A f.rows p.limit p.tt p.lazy
+  t.take (A.measure t.length p.limit)
+
 def colWidths (A : Arith) (p : Params) (f : Frame) : List Nat :=
-  colWidthsGo A p.showTypes p.maxCol (cutRows A f.rows p.limit p.tt p.lazy) 0 f.names f.types
+  colWidthsGo A p.showTypes p.maxCol (measuredRows A p f) 0 f.names f.types
 
 def idxWidth (A : Arith) (p : Params) (f : Frame) : Nat :=
   indexWidth A f.rows.length p.limit p.tt p.lazy f.rows
